@@ -187,9 +187,16 @@ def all_children2(st, kind, a, b, pred, name):
 
 
 def compat(K, st, a, b):
-    """Structural compatibility of two views of class K (DESIGN `compat`): parameters equal, same
-    number of bins / same centres / thresholds / key sets, children compatible."""
+    parts = compat_parts(K, st, a, b)
+    return z3.And([x for v in parts.values() for x in v]) if parts else z3.BoolVal(True)
+
+
+def compat_parts(K, st, a, b):
+    """Structural compatibility of two views of class K (DESIGN `compat`), in named parts:
+    params (parameters equal, same number of bins / centres / thresholds / key sets) and
+    children (children pairwise compatible)."""
     cs = []
+    ch = []
     for p in PARAMS[K]:
         cs.append(content_eq(st, a[p], b[p], "compat-param"))
     for f, kind in CHILDREN.get(K, {}).items():
@@ -210,12 +217,8 @@ def compat(K, st, a, b):
         if kind == "fixedmap":
             k = z3.Const(f"cp!{core.uid()}", core.Key)
             cs.append(st.forall(k, z3.BoolVal(True), x.dom(k) == y.dom(k), equiv=True, name="compat-keys"))
-        cs.append(all_children2(st, kind, x, y, child_compat, "compat-children"))
-    if K in ("SparselyBin", "Categorize"):
-        # content type of the (possibly still empty) sparse container is structure
-        if "contentShape" in a and "contentShape" in b:
-            cs.append(a["contentShape"] == b["contentShape"])
-    return z3.And(cs) if cs else z3.BoolVal(True)
+        ch.append(all_children2(st, kind, x, y, child_compat, "compat-children"))
+    return {"params": cs, "children": ch}
 
 
 # ---- sufficient statistics of the moment leaves --------------------------------------------------
